@@ -94,8 +94,7 @@ func condFacts(e ast.Expr, truth bool, out *[]ast.Expr, strs *[]string) {
 }
 
 // terminates reports whether a block always leaves the enclosing statement
-// list: its last statement is return, continue, goto, panic, or a break that
-// exits a loop.
+// list: its last statement is return, continue, goto, panic or break.
 func terminates(b *ast.BlockStmt, pm parentMap) bool {
 	if b == nil || len(b.List) == 0 {
 		return false
@@ -108,17 +107,10 @@ func terminates(b *ast.BlockStmt, pm parentMap) bool {
 			return true
 		}
 		if s.Tok == token.BREAK {
-			// the innermost breakable ancestor must be a loop
-			for n := pm[ast.Node(s)]; n != nil; n = pm[n] {
-				switch n.(type) {
-				case *ast.ForStmt, *ast.RangeStmt:
-					return true
-				case *ast.SwitchStmt, *ast.TypeSwitchStmt, *ast.SelectStmt:
-					return false
-				case *ast.FuncLit, *ast.FuncDecl:
-					return false
-				}
-			}
+			// break leaves the innermost for/switch/select (or the labelled
+			// statement): the statements that follow the guard in the same
+			// list are skipped either way
+			return true
 		}
 	case *ast.ExprStmt:
 		if call, ok := s.X.(*ast.CallExpr); ok {
